@@ -39,6 +39,17 @@ impl<'a, B: ByteOrder> Buffer<'a, B> {
 
     pub const fn current_position(&self) -> usize { self.cursor }
 
+    /// Construct a reader positioned at an arbitrary cursor (verification
+    /// builds only; lets a model checker re-enter a reader state).
+    #[cfg(gamedig_verif)]
+    pub const fn verif_at(data: &'a [u8], cursor: usize) -> Self {
+        Self {
+            data,
+            cursor,
+            _marker: PhantomData,
+        }
+    }
+
     /// Returns the length of the remaining bytes from the current cursor
     /// position.
     pub const fn remaining_length(&self) -> usize { self.data.len() - self.cursor }
